@@ -190,6 +190,7 @@ func (c *Ctx) Finish() int {
 	var fs []Finding
 	for _, f := range c.Findings {
 		f.Construct = strings.ReplaceAll(f.Construct, " ", "")
+		f.Construct = c.P.CanonicalConstruct(f.Construct) // a renamed function keeps the identity of its findings
 		key := f.Rule + "|" + f.Construct
 		if seen[key] {
 			continue
@@ -293,6 +294,7 @@ func (c *Ctx) Finish() int {
 		"ssa_s":               c.P.SSAS,
 		"callgraph_s":         c.P.CGS,
 		"exhaustive":          true,
+		"anchors_resolved_by_fingerprint": c.P.Renames,
 	}
 	for k, v := range c.Extra {
 		cov[k] = v
